@@ -182,3 +182,475 @@ Qed.
 Lemma unescape_escape stp nb pts l : (stp = true -> pts = true) -> all_1_255 l ->
   unescape pts BrDontTouch (escape stp nb l) = if nb then crlf l else l.
 Proof. intros Hm Hall. apply roundtrip_loop; assumption. Qed.
+
+(* ====================================================================== *)
+(* ---------- 4. unescaping: one-step equations of the pure loop ---------- *)
+Definition nz (c : N) : Prop := c <> 0.
+
+Definition conv (bc : break_conv) : brk :=
+  match bc with BrToLf => ToLf | BrToCrlf => ToCrlf | BrToCr => ToCr | BrDontTouch => DontTouch end.
+
+Lemma hexdig_not_special a : is_hexdig a = true -> a <> 0 /\ a <> 37 /\ a <> 43.
+Proof.
+  unfold is_hexdig, is_digit, is_hex_upper, is_hex_lower, in_range. intros H. lia.
+Qed.
+
+Lemma hexdig_nul : is_hexdig 0 = false.
+Proof. reflexivity. Qed.
+
+Lemma uloop_pct1 pts bc cr r : is_hexdig (nth 0 r 0) = false ->
+  unescape_loop pts bc cr (37 :: r) = 37 :: unescape_loop pts bc false r.
+Proof.
+  intros H. cbn [unescape_loop]. change (37 =? 0) with false. change (37 =? 37) with true. cbv iota.
+  destruct r as [|a r1]; [reflexivity|]. cbn [nth] in H. rewrite H. reflexivity.
+Qed.
+
+Lemma uloop_pct2 pts bc cr a r1 : is_hexdig a = true -> is_hexdig (nth 0 r1 0) = false ->
+  unescape_loop pts bc cr (37 :: a :: r1) = 37 :: a :: unescape_loop pts bc false r1.
+Proof.
+  intros Ha H. cbn [unescape_loop]. change (37 =? 0) with false. change (37 =? 37) with true. cbv iota.
+  rewrite Ha. destruct r1 as [|b r2]; [reflexivity|]. cbn [nth] in H. rewrite H. reflexivity.
+Qed.
+
+Lemma uloop_copy pts bc cr c r : c <> 0 -> c <> 37 -> (c =? 43) && pts = false ->
+  unescape_loop pts bc cr (c :: r) = c :: unescape_loop pts bc false r.
+Proof.
+  intros H0 H37 H43. cbn [unescape_loop].
+  destruct (c =? 0) eqn:E0; [lia|]. destruct (c =? 37) eqn:E1; [lia|].
+  destruct (c =? 43) eqn:E2; [|reflexivity]. destruct pts; [discriminate|reflexivity].
+Qed.
+
+(* the shapes of an input text the loop distinguishes *)
+Lemma ucases (l : text) :
+  l = [] \/ (exists r, l = 0 :: r) \/
+  (exists a b r2, l = 37 :: a :: b :: r2 /\ is_hexdig a = true /\ is_hexdig b = true) \/
+  (exists a r1, l = 37 :: a :: r1 /\ is_hexdig a = true /\ is_hexdig (nth 0 r1 0) = false) \/
+  (exists r, l = 37 :: r /\ is_hexdig (nth 0 r 0) = false) \/
+  (exists c r, l = c :: r /\ c <> 0 /\ c <> 37).
+Proof.
+  destruct l as [|c r]; [left; reflexivity|]. right.
+  destruct (N.eq_dec c 0) as [E0|N0]; [left; subst; eauto|]. right.
+  destruct (N.eq_dec c 37) as [E37|N37].
+  2:{ right. right. right. eauto. }
+  subst c. destruct (is_hexdig (nth 0 r 0)) eqn:Ha.
+  2:{ right. right. left. eauto. }
+  destruct r as [|a r1]; [discriminate|]. cbn [nth] in Ha.
+  destruct (is_hexdig (nth 0 r1 0)) eqn:Hb.
+  2:{ right. left. eauto. }
+  destruct r1 as [|b r2]; [discriminate|]. cbn [nth] in Hb.
+  left. exists a, b, r2. auto.
+Qed.
+
+Lemma out_lf_len bc cr : (length (out_lf bc cr) <= 2)%nat.
+Proof. destruct bc, cr; cbn; lia. Qed.
+Lemma out_cr_len bc : (length (out_cr bc) <= 2)%nat.
+Proof. destruct bc; cbn; lia. Qed.
+
+(* ---------- 5. unescaping never lengthens -------------------------------- *)
+Lemma unescape_loop_shrinks pts bc : forall n l, (length l <= n)%nat -> forall cr,
+  (length (unescape_loop pts bc cr l) <= length (until_nul l))%nat.
+Proof.
+  induction n as [|n IH]; intros l Hn cr.
+  { destruct l; [cbn; lia|cbn in Hn; lia]. }
+  destruct (ucases l) as [E|[[r E]|[[a [b [r2 [E [Ha Hb]]]]]|[[a [r1 [E [Ha Hb]]]]|[[r [E Ha]]|[c [r [E [N0 N37]]]]]]]]]; subst l.
+  - cbn; lia.
+  - cbn; lia.
+  - rewrite unescape_triplet by assumption. cbv zeta.
+    pose proof (hexdig_not_special _ Ha) as Sa. pose proof (hexdig_not_special _ Hb) as Sb.
+    cbn [until_nul]. change (37 =? 0) with false. cbv iota.
+    destruct (a =? 0) eqn:Ea; [lia|]. destruct (b =? 0) eqn:Eb; [lia|].
+    cbn [length] in Hn.
+    pose proof (IH r2 ltac:(lia) false) as I1. pose proof (IH r2 ltac:(lia) true) as I2.
+    pose proof (out_lf_len bc cr). pose proof (out_cr_len bc).
+    destruct (_ =? 10); [rewrite app_length; cbn [length]; lia|].
+    destruct (_ =? 13); [rewrite app_length; cbn [length]; lia|].
+    cbn [length]; lia.
+  - rewrite uloop_pct2 by assumption.
+    pose proof (hexdig_not_special _ Ha) as Sa.
+    cbn [until_nul]. change (37 =? 0) with false. cbv iota. destruct (a =? 0) eqn:Ea; [lia|].
+    cbn [length] in *. pose proof (IH r1 ltac:(lia) false). lia.
+  - rewrite uloop_pct1 by assumption.
+    cbn [until_nul]. change (37 =? 0) with false. cbv iota.
+    cbn [length] in *. pose proof (IH r ltac:(lia) false). lia.
+  - cbn [until_nul]. destruct (c =? 0) eqn:E0; [lia|].
+    cbn [length] in Hn. pose proof (IH r ltac:(lia) false) as I.
+    destruct ((c =? 43) && pts) eqn:E43.
+    + apply andb_prop in E43. destruct E43 as [E43 Ep]. apply N.eqb_eq in E43. subst c pts.
+      rewrite unescape_plus. cbn [length]. lia.
+    + rewrite uloop_copy by assumption. cbn [length]. lia.
+Qed.
+
+Lemma unescape_shrinks pts bc l : (length (unescape pts bc l) <= length (until_nul l))%nat.
+Proof. apply (unescape_loop_shrinks pts bc (length l)). lia. Qed.
+
+(* ---------- 6. the loop computes the tokenising specification ------------- *)
+Lemma unescape_loop_is_spec pts bc : forall n l, (length l <= n)%nat -> forall cr,
+  unescape_loop pts bc cr l = decode pts (conv bc) cr (tokenize (until_nul l)).
+Proof.
+  induction n as [|n IH]; intros l Hn cr.
+  { destruct l; [reflexivity|cbn in Hn; lia]. }
+  destruct (ucases l) as [E|[[r E]|[[a [b [r2 [E [Ha Hb]]]]]|[[a [r1 [E [Ha Hb]]]]|[[r [E Ha]]|[c [r [E [N0 N37]]]]]]]]]; subst l.
+  - reflexivity.
+  - reflexivity.
+  - rewrite unescape_triplet by assumption. cbv zeta.
+    pose proof (hexdig_not_special _ Ha) as Sa. pose proof (hexdig_not_special _ Hb) as Sb.
+    cbn [until_nul]. change (37 =? 0) with false. cbv iota.
+    destruct (a =? 0) eqn:Ea; [lia|]. destruct (b =? 0) eqn:Eb; [lia|].
+    cbn [tokenize]. change (37 =? 37) with true. cbv iota. rewrite Ha, Hb. cbn [andb]. cbv iota.
+    cbn [length] in Hn. cbn [decode].
+    rewrite <- (IH r2 ltac:(lia) false). rewrite <- (IH r2 ltac:(lia) true).
+    destruct (_ =? 10) eqn:E10.
+    { apply N.eqb_eq in E10. rewrite E10. change (10 =? 13) with false. change (10 =? 10) with true. cbv iota.
+      destruct bc, cr; reflexivity. }
+    destruct (_ =? 13) eqn:E13; [|reflexivity].
+    destruct bc; reflexivity.
+  - rewrite uloop_pct2 by assumption.
+    pose proof (hexdig_not_special _ Ha) as Sa.
+    cbn [length] in Hn. rewrite (IH r1 ltac:(lia) false).
+    cbn [until_nul]. change (37 =? 0) with false. cbv iota. destruct (a =? 0) eqn:Ea; [lia|].
+    assert (tokenize (37 :: a :: until_nul r1) = Lit 37 :: Lit a :: tokenize (until_nul r1)) as ET.
+    { cbn [tokenize]. change (37 =? 37) with true. cbv iota. destruct (a =? 37) eqn:E37; [lia|].
+      destruct (until_nul r1) as [|b u2] eqn:EU; [reflexivity|].
+      assert (b = nth 0 r1 0) as Eb.
+      { destruct r1 as [|b' r2]; [discriminate|]. cbn [until_nul] in EU.
+        destruct (b' =? 0); [discriminate|]. injection EU as -> _. reflexivity. }
+      rewrite Ha, <- Eb in *. rewrite Hb. reflexivity. }
+    rewrite ET. cbn [decode]. change (37 =? 43) with false. cbn [andb]. cbv iota.
+    destruct (a =? 43) eqn:E43; [lia|]. reflexivity.
+  - rewrite uloop_pct1 by assumption.
+    cbn [length] in Hn. rewrite (IH r ltac:(lia) false).
+    cbn [until_nul]. change (37 =? 0) with false. cbv iota.
+    assert (tokenize (37 :: until_nul r) = Lit 37 :: tokenize (until_nul r)) as ET.
+    { cbn [tokenize]. change (37 =? 37) with true. cbv iota.
+      destruct (until_nul r) as [|a u1] eqn:EU; [reflexivity|].
+      assert (a = nth 0 r 0) as Ea.
+      { destruct r as [|a' r1]; [discriminate|]. cbn [until_nul] in EU.
+        destruct (a' =? 0); [discriminate|]. injection EU as -> _. reflexivity. }
+      rewrite <- Ea in Ha. rewrite Ha. destruct u1; reflexivity. }
+    rewrite ET. cbn [decode]. change (37 =? 43) with false. reflexivity.
+  - cbn [until_nul]. destruct (c =? 0) eqn:E0; [lia|].
+    cbn [tokenize]. destruct (c =? 37) eqn:E37; [lia|]. cbn [decode].
+    cbn [length] in Hn. rewrite <- (IH r ltac:(lia) false).
+    destruct ((c =? 43) && pts) eqn:E43.
+    + apply andb_prop in E43. destruct E43 as [E43 Ep]. apply N.eqb_eq in E43. subst c pts.
+      apply unescape_plus.
+    + apply uloop_copy; assumption.
+Qed.
+
+Lemma unescape_is_spec pts bc l : unescape pts bc l = unescape_spec pts (conv bc) l.
+Proof. apply (unescape_loop_is_spec pts bc (length l)). lia. Qed.
+
+(* ====================================================================== *)
+(* ---------- 7. buffer primitives over appended lists ---------------------- *)
+Lemma bget_app3 out junk x k n : n = (length out + length junk + k)%nat ->
+  bget (out ++ junk ++ x) n = nth k x 0.
+Proof.
+  intros ->. unfold bget. rewrite app_assoc, <- app_length. apply app_nth2_plus.
+Qed.
+
+Lemma nth0_app_nul (r rest : text) : nth 0 (r ++ 0 :: rest) 0 = nth 0 r 0.
+Proof. destruct r; reflexivity. Qed.
+
+Lemma bset_app out x mid v : bset (out ++ x :: mid) (length out) v = out ++ v :: mid.
+Proof. induction out as [|y out IH]; [reflexivity|]. cbn [app length bset]. rewrite IH. reflexivity. Qed.
+
+Lemma bset_length : forall buf i v, length (bset buf i v) = length buf.
+Proof.
+  induction buf as [|x buf IH]; intros i v; [reflexivity|].
+  destruct i; cbn [bset length]; [reflexivity|]. rewrite IH. reflexivity.
+Qed.
+
+(* writing [o] at the write cursor overwrites the first |o| characters after [out] *)
+Lemma bwrite_app : forall o out mid tl log, (length o <= length mid)%nat ->
+  exists log',
+    bwrite (out ++ mid ++ tl) log (length out) o
+      = (out ++ o ++ skipn (length o) mid ++ tl, log', (length out + length o)%nat)
+    /\ (forall i, In i log' -> In i log \/ (length out <= i < length out + length o)%nat).
+Proof.
+  induction o as [|v o IH]; intros out mid tl log Hl.
+  - exists log. cbn [bwrite length skipn app]. rewrite Nat.add_0_r. split; [reflexivity|auto].
+  - destruct mid as [|m mid]; [cbn [length] in Hl; lia|].
+    cbn [length] in Hl.
+    destruct (IH (out ++ [v]) mid tl (length out :: log) ltac:(lia)) as [log' [E Hin]].
+    exists log'. split.
+    + cbn [bwrite]. change ((m :: mid) ++ tl) with (m :: (mid ++ tl)). rewrite bset_app.
+      rewrite app_length in E. cbn [length] in E. rewrite Nat.add_1_r in E.
+      rewrite <- !app_assoc in E. cbn [app] in E. rewrite E.
+      cbn [app length skipn]. f_equal. lia.
+    + intros i Hi. apply Hin in Hi. rewrite app_length in Hi. cbn [length In] in *.
+      destruct Hi as [[Hi|Hi]|Hi]; [right; lia|left; assumption|right; lia].
+Qed.
+
+(* copying [cs] down from the read cursor to the write cursor *)
+Lemma bcopy_app : forall cs out junk tl log,
+  exists junk' log',
+    bcopy (out ++ junk ++ cs ++ tl) log (length out + length junk) (length out) (length cs)
+      = (out ++ cs ++ junk' ++ tl, log')
+    /\ length junk' = length junk
+    /\ (forall i, In i log' -> In i log \/ (length out <= i < length out + length cs)%nat).
+Proof.
+  induction cs as [|c cs IH]; intros out junk tl log.
+  - exists junk, log. cbn [bcopy length app]. auto.
+  - cbn [length bcopy]. destruct junk as [|j junk].
+    + cbn [length app]. rewrite Nat.add_0_r, Nat.ltb_irrefl.
+      destruct (IH (out ++ [c]) [] tl log) as [junk' [log' [E [Hlen Hin]]]].
+      destruct junk' as [|? ?]; [|cbn [length] in Hlen; lia].
+      exists [], log'. split; [|split; [reflexivity|]].
+      * rewrite app_length in E. cbn [length app] in E. rewrite Nat.add_0_r, Nat.add_1_r in E.
+        rewrite <- !app_assoc in E. cbn [app] in E. rewrite E. reflexivity.
+      * intros i Hi. apply Hin in Hi. rewrite app_length in Hi. cbn [length] in Hi.
+        destruct Hi as [Hi|Hi]; [left; assumption|right; lia].
+    + assert (Nat.ltb (length out) (length out + length (j :: junk)) = true) as Elt
+        by (apply Nat.ltb_lt; cbn [length]; lia).
+      rewrite Elt.
+      rewrite (bget_app3 out (j :: junk) ((c :: cs) ++ tl) 0) by lia. cbn [app nth].
+      rewrite bset_app.
+      destruct (IH (out ++ [c]) (junk ++ [c]) tl (length out :: log)) as [junk' [log' [E [Hlen Hin]]]].
+      exists junk', log'. split; [|split].
+      * rewrite !app_length in E. cbn [length] in E.
+        replace (length out + 1 + (length junk + 1))%nat with (S (length out + S (length junk))) in E by lia.
+        rewrite Nat.add_1_r in E. rewrite <- !app_assoc in E. cbn [app] in E.
+        cbn [length]. rewrite E. reflexivity.
+      * rewrite Hlen, app_length. cbn [length]. lia.
+      * intros i Hi. apply Hin in Hi. rewrite app_length in Hi. cbn [length In] in *.
+        destruct Hi as [[Hi|Hi]|Hi]; [right; lia|left; assumption|right; lia].
+Qed.
+
+Lemma firstn_app_len {A} (a b : list A) : firstn (length a) (a ++ b) = a.
+Proof. rewrite firstn_app, Nat.sub_diag, firstn_all. cbn [firstn]. apply app_nil_r. Qed.
+
+Lemma nth_app_len {A} (a b : list A) d : nth (length a) (a ++ b) d = nth 0 b d.
+Proof. rewrite <- (Nat.add_0_r (length a)). apply app_nth2_plus. Qed.
+
+Lemma skipn_app_len {A} (a b : list A) n : n = length a -> skipn n (a ++ b) = b.
+Proof. intros ->. rewrite skipn_app, Nat.sub_diag, skipn_all. reflexivity. Qed.
+
+(* ---------- 8. one step of the cursor-level loop ---------------------------
+   Shape of a reachable state: the buffer is  out ++ junk ++ suf ++ 0 :: rest  where [out] is
+   what has been written (|out| = write cursor), [junk] is the already-read gap between the
+   cursors (|out| + |junk| = read cursor), [suf] is the unread, NUL-free remainder of the text. *)
+Lemma ustep_sim pts bc rest out junk suf cr log :
+  Forall nz suf ->
+  match ustep pts bc (Build_ustate (out ++ junk ++ suf ++ 0 :: rest)
+                                   (length out + length junk) (length out) cr log) with
+  | UDone buf' ret log' =>
+      suf = [] /\ ret = length out /\
+      (exists junk', length junk' = length junk /\ buf' = out ++ junk' ++ 0 :: rest
+                     /\ nth 0 (junk' ++ 0 :: rest) 0 = 0) /\
+      (forall i, In i log' -> In i log \/ (i < length out + length junk)%nat)
+  | UCont s' =>
+      exists o junk' suf',
+        u_buf s' = (out ++ o) ++ junk' ++ suf' ++ 0 :: rest /\
+        u_wr s' = length (out ++ o) /\
+        u_rd s' = (length (out ++ o) + length junk')%nat /\
+        unescape_loop pts bc cr suf = o ++ unescape_loop pts bc (u_cr s') suf' /\
+        (length o + length junk' + length suf' = length junk + length suf)%nat /\
+        (length suf' < length suf)%nat /\ Forall nz suf' /\
+        (forall i, In i (u_log s') -> In i log \/ (i < length out + length junk + length suf)%nat)
+  end.
+Proof.
+  intros Hnz. unfold ustep. cbn [u_buf u_rd u_wr u_cr u_log]. cbv zeta.
+  rewrite (bget_app3 out junk _ 0 (length out + length junk)) by lia.
+  rewrite (bget_app3 out junk _ 1 (length out + length junk + 1)) by lia.
+  rewrite (bget_app3 out junk _ 2 (length out + length junk + 2)) by lia.
+  destruct (ucases suf) as [E|[[r E]|[[a [b [r2 [E [Ha Hb]]]]]|[[a [r1 [E [Ha Hb]]]]|[[r [E Ha]]|[c [r [E [N0 N37]]]]]]]]]; subst suf.
+  - (* end of text *)
+    cbn [app nth]. change (0 =? 0) with true. cbv iota.
+    destruct junk as [|j junk].
+    + cbn [length app]. rewrite Nat.add_0_r, Nat.ltb_irrefl.
+      split; [reflexivity|]. split; [reflexivity|]. split; [|auto].
+      exists []. auto.
+    + assert (Nat.ltb (length out) (length out + length (j :: junk)) = true) as Elt
+        by (apply Nat.ltb_lt; cbn [length]; lia).
+      rewrite Elt. cbn [app]. rewrite bset_app.
+      split; [reflexivity|]. split; [reflexivity|]. split.
+      * exists (0 :: junk). auto.
+      * intros i [Hi|Hi]; [right; cbn [length]; lia|left; assumption].
+  - (* a NUL inside the text: excluded *)
+    inversion Hnz as [|? ? Hc ?]. exfalso. apply Hc. reflexivity.
+  - (* well-formed triplet *)
+    cbn [app nth]. change (37 =? 0) with false. change (37 =? 37) with true. cbv iota.
+    rewrite Ha, Hb.
+    match goal with |- context [bwrite _ _ _ ?o] => set (oo := o) end.
+    assert (length oo <= 2)%nat as Hoo.
+    { unfold oo. pose proof (out_lf_len bc cr). pose proof (out_cr_len bc).
+      destruct (_ =? 10); [assumption|]. destruct (_ =? 13); [assumption|]. cbn [length]. lia. }
+    destruct (bwrite_app oo out (junk ++ [37; a; b]) (r2 ++ 0 :: rest) log) as [log' [E Hin]].
+    { rewrite app_length. cbn [length]. lia. }
+    rewrite <- app_assoc in E. cbn [app] in E. rewrite E.
+    exists oo, (skipn (length oo) (junk ++ [37; a; b])), r2.
+    cbn [u_buf u_wr u_rd u_cr u_log].
+    split; [apply app_assoc|]. split; [rewrite app_length; reflexivity|].
+    split; [rewrite skipn_length, !app_length; cbn [length]; lia|].
+    split.
+    { rewrite unescape_triplet by assumption. cbv zeta. unfold oo.
+      destruct (_ =? 10) eqn:E10.
+      - apply N.eqb_eq in E10. rewrite E10. reflexivity.
+      - destruct (_ =? 13); reflexivity. }
+    split; [rewrite skipn_length, app_length; cbn [length]; lia|].
+    split; [cbn [length]; lia|].
+    split.
+    { change (37 :: a :: b :: r2) with ([37; a; b] ++ r2) in Hnz. apply Forall_app in Hnz. tauto. }
+    intros i Hi. apply Hin in Hi. cbn [length]. destruct Hi as [Hi|Hi]; [left; assumption|right; lia].
+  - (* '%', hex digit, no second hex digit: two characters copied *)
+    cbn [app nth]. change (37 =? 0) with false. change (37 =? 37) with true. cbv iota.
+    rewrite Ha, nth0_app_nul, Hb.
+    destruct (bcopy_app [37; a] out junk (r1 ++ 0 :: rest) log) as [junk' [log' [E [Hlen Hin]]]].
+    cbn [app length] in E. rewrite E.
+    exists [37; a], junk', r1.
+    cbn [u_buf u_wr u_rd u_cr u_log].
+    split; [rewrite <- !app_assoc; reflexivity|]. split; [rewrite app_length; reflexivity|].
+    split; [rewrite app_length; cbn [length]; lia|].
+    split; [apply uloop_pct2; assumption|].
+    split; [cbn [length]; lia|]. split; [cbn [length]; lia|].
+    split.
+    { change (37 :: a :: r1) with ([37; a] ++ r1) in Hnz. apply Forall_app in Hnz. tauto. }
+    intros i Hi. apply Hin in Hi. cbn [length] in *. destruct Hi as [Hi|Hi]; [left; assumption|right; lia].
+  - (* '%' not followed by a hex digit: one character copied *)
+    cbn [app nth]. change (37 =? 0) with false. change (37 =? 37) with true. cbv iota.
+    rewrite nth0_app_nul, Ha.
+    destruct (bcopy_app [37] out junk (r ++ 0 :: rest) log) as [junk' [log' [E [Hlen Hin]]]].
+    cbn [app length] in E. rewrite E.
+    exists [37], junk', r.
+    cbn [u_buf u_wr u_rd u_cr u_log].
+    split; [rewrite <- !app_assoc; reflexivity|]. split; [rewrite app_length; reflexivity|].
+    split; [rewrite app_length; cbn [length]; lia|].
+    split; [apply uloop_pct1; assumption|].
+    split; [cbn [length]; lia|]. split; [cbn [length]; lia|].
+    split.
+    { inversion Hnz; assumption. }
+    intros i Hi. apply Hin in Hi. cbn [length] in *. destruct Hi as [Hi|Hi]; [left; assumption|right; lia].
+  - (* any other character *)
+    cbn [app nth]. destruct (c =? 0) eqn:E0; [lia|]. destruct (c =? 37) eqn:E37; [lia|].
+    assert (Forall nz r) as Hr by (inversion Hnz; assumption).
+    destruct ((c =? 43) && pts) eqn:E43.
+    + apply andb_prop in E43. destruct E43 as [E43 Ep]. apply N.eqb_eq in E43. subst c pts.
+      destruct (bwrite_app [32] out (junk ++ [43]) (r ++ 0 :: rest) log) as [log' [E Hin]].
+      { rewrite app_length. cbn [length]. lia. }
+      rewrite <- app_assoc in E. cbn [app] in E. rewrite E.
+      exists [32], (skipn 1 (junk ++ [43])), r.
+      cbn [u_buf u_wr u_rd u_cr u_log length].
+      split; [rewrite <- !app_assoc; reflexivity|]. split; [rewrite app_length; reflexivity|].
+      split; [rewrite skipn_length, !app_length; cbn [length]; lia|].
+      split; [apply unescape_plus|].
+      split; [rewrite skipn_length, app_length; cbn [length]; lia|].
+      split; [lia|]. split; [assumption|].
+      intros i Hi. apply Hin in Hi. cbn [length] in Hi. destruct Hi as [Hi|Hi]; [left; assumption|right; lia].
+    + destruct (bcopy_app [c] out junk (r ++ 0 :: rest) log) as [junk' [log' [E [Hlen Hin]]]].
+      cbn [app length] in E. rewrite E.
+      exists [c], junk', r.
+      cbn [u_buf u_wr u_rd u_cr u_log].
+      split; [rewrite <- !app_assoc; reflexivity|]. split; [rewrite app_length; reflexivity|].
+      split; [rewrite app_length; cbn [length]; lia|].
+      split; [apply uloop_copy; assumption|].
+      split; [cbn [length]; lia|]. split; [cbn [length]; lia|]. split; [assumption|].
+      intros i Hi. apply Hin in Hi. cbn [length] in *. destruct Hi as [Hi|Hi]; [left; assumption|right; lia].
+Qed.
+
+(* ---------- 9. the whole run ------------------------------------------------ *)
+Lemma urun_sim pts bc rest : forall fuel out junk suf cr log,
+  Forall nz suf -> (length suf < fuel)%nat ->
+  exists buf' ret log',
+    urun pts bc fuel (Build_ustate (out ++ junk ++ suf ++ 0 :: rest)
+                                   (length out + length junk) (length out) cr log)
+      = Some (buf', ret, log') /\
+    firstn ret buf' = out ++ unescape_loop pts bc cr suf /\
+    nth ret buf' 0 = 0 /\
+    (ret <= length out + length junk + length suf)%nat /\
+    length buf' = (length out + length junk + length suf + S (length rest))%nat /\
+    skipn (S (length out + length junk + length suf)) buf' = rest /\
+    (forall i, In i log' -> In i log \/ (i < length out + length junk + length suf)%nat).
+Proof.
+  induction fuel as [|fuel IH]; intros out junk suf cr log Hnz Hf; [lia|].
+  cbn [urun]. pose proof (ustep_sim pts bc rest out junk suf cr log Hnz) as S.
+  destruct (ustep pts bc _) as [buf' ret log' | s'].
+  - destruct S as [-> [-> [[junk' [Hlen [-> H0]]] Hin]]].
+    exists (out ++ junk' ++ 0 :: rest), (length out), log'.
+    split; [reflexivity|]. cbn [length unescape_loop]. rewrite !Nat.add_0_r.
+    split; [rewrite app_nil_r; apply firstn_app_len|].
+    split; [rewrite nth_app_len; exact H0|].
+    split; [lia|].
+    split; [rewrite !app_length; cbn [length]; lia|].
+    split; [|exact Hin].
+    change (0 :: rest) with ([0] ++ rest). rewrite !app_assoc.
+    apply skipn_app_len. rewrite !app_length. cbn [length]. lia.
+  - destruct S as [o [junk' [suf' [Hb [Hw [Hr [Hu [Hl [Hlt [Hnz' Hin]]]]]]]]]].
+    destruct s' as [b r w c lg]. cbn [u_buf u_rd u_wr u_cr u_log] in *. subst b r w.
+    destruct (IH (out ++ o) junk' suf' c lg Hnz' ltac:(lia))
+      as [buf' [ret [log' [R [F [Z [Le [Len [Sk Hin']]]]]]]]].
+    rewrite app_length in *.
+    exists buf', ret, log'. split; [exact R|].
+    split; [rewrite F, Hu; symmetry; apply app_assoc|].
+    split; [exact Z|]. split; [lia|]. split; [lia|].
+    split.
+    { replace (length out + length junk + length suf)%nat
+        with (length out + length o + length junk' + length suf')%nat by lia. exact Sk. }
+    intros i Hi. apply Hin' in Hi. destruct Hi as [Hi|Hi]; [apply Hin; assumption|right; lia].
+Qed.
+
+Lemma unescape_inplace_refines pts bc l rest :
+  Forall (fun c => c <> 0) l ->
+  exists buf' ret log,
+    unescape_inplace pts bc (l ++ 0 :: rest) = Some (buf', ret, log) /\
+    firstn ret buf' = unescape pts bc l /\
+    nth ret buf' 0 = 0 /\
+    (ret <= length l)%nat /\
+    length buf' = length (l ++ 0 :: rest) /\
+    skipn (S (length l)) buf' = rest /\
+    Forall (fun i => (i <= length l)%nat) log.
+Proof.
+  intros Hnz.
+  destruct (urun_sim pts bc rest (S (length (l ++ 0 :: rest))) [] [] l false [] Hnz)
+    as [buf' [ret [log' [R [F [Z [Le [Len [Sk Hin]]]]]]]]].
+  { rewrite app_length. lia. }
+  cbn [app length Nat.add] in *.
+  exists buf', ret, log'. split; [exact R|]. split; [exact F|]. split; [exact Z|].
+  split; [exact Le|]. split; [rewrite app_length; cbn [length]; lia|]. split; [exact Sk|].
+  apply Forall_forall. intros i Hi. apply Hin in Hi. destruct Hi as [[]|Hi]. lia.
+Qed.
+
+(* ---------- 10. the write cursor never passes the read cursor ------------------ *)
+Definition uinit (buf : text) : ustate :=
+  {| u_buf := buf; u_rd := 0; u_wr := 0; u_cr := false; u_log := [] |}.
+
+(* states reached by iterating the loop body *)
+Inductive ureach (pts : bool) (bc : break_conv) (s : ustate) : ustate -> Prop :=
+| ureach_refl : ureach pts bc s s
+| ureach_step s1 s2 : ureach pts bc s s1 -> ustep pts bc s1 = UCont s2 -> ureach pts bc s s2.
+
+Definition ushape (rest : text) (n : nat) (s : ustate) : Prop :=
+  exists out junk suf,
+    u_buf s = out ++ junk ++ suf ++ 0 :: rest /\ u_wr s = length out /\
+    u_rd s = (length out + length junk)%nat /\ Forall nz suf /\
+    (length out + length junk + length suf = n)%nat.
+
+Lemma ushape_step pts bc rest n s s' :
+  ushape rest n s -> ustep pts bc s = UCont s' -> ushape rest n s'.
+Proof.
+  intros [out [junk [suf [Hb [Hw [Hr [Hnz Hn]]]]]]] Hs.
+  destruct s as [b r w c lg]. cbn [u_buf u_rd u_wr] in *. subst b r w.
+  pose proof (ustep_sim pts bc rest out junk suf c lg Hnz) as S. rewrite Hs in S.
+  destruct S as [o [junk' [suf' [Hb' [Hw' [Hr' [_ [Hl [_ [Hnz' _]]]]]]]]]].
+  exists (out ++ o), junk', suf'. rewrite app_length in *. repeat split; try assumption. lia.
+Qed.
+
+Lemma ureach_shape pts bc l rest s : Forall nz l ->
+  ureach pts bc (uinit (l ++ 0 :: rest)) s -> ushape rest (length l) s.
+Proof.
+  intros Hnz R. induction R as [|s1 s2 R IH Hs].
+  - exists [], [], l. cbn. auto.
+  - eapply ushape_step; eassumption.
+Qed.
+
+Lemma unescape_inplace_write_le_read pts bc l rest s :
+  Forall (fun c => c <> 0) l ->
+  ureach pts bc (uinit (l ++ 0 :: rest)) s -> (u_wr s <= u_rd s <= length l)%nat.
+Proof.
+  intros Hnz R. destruct (ureach_shape pts bc l rest s Hnz R) as [out [junk [suf [_ [Hw [Hr [_ Hn]]]]]]].
+  lia.
+Qed.
+
+(* the run of [unescape_inplace] is the iteration of [ustep] from [uinit] *)
+Lemma unescape_inplace_is_run pts bc buf :
+  unescape_inplace pts bc buf = urun pts bc (S (length buf)) (uinit buf).
+Proof. reflexivity. Qed.
